@@ -3,14 +3,18 @@
 (* schedulers racing for cron ticks.  It knows only the observable contract: a tick is          *)
 (* delivered at most once across all nodes, a tick that some node could try to claim (saw it    *)
 (* fresh, no registry error) is delivered exactly once, and nothing is delivered outside a      *)
-(* tick.  Every line is consumed; a failed check prints <<"MISMATCH", line, id, code, a, b>>.   *)
+(* tick; a node fires (goes on to deliver) only if the real ClaimScheduleFire acknowledged its  *)
+(* claim as won, and the claim is acknowledged as won only if the registry applied this node's  *)
+(* put-if-absent and answered (r = what the registry did with the write: won, lost, err, tmo =  *)
+(* timed out unapplied, tmoa = applied but the answer timed out; ack = what the node was told). *)
+(* Every line is consumed; a failed check prints <<"MISMATCH", line, id, code, a, b>>.          *)
 EXTENDS Integers, Sequences, TLC, Json
 CONSTANT MaxTick
 Trace == ndJsonDeserialize("trace.ndjson")
-VARIABLES l, id, told, tried, total
-vars == <<l, id, told, tried, total>>
+VARIABLES l, id, told, tried, total, blocked
+vars == <<l, id, told, tried, total, blocked>>
 T == 1..MaxTick
-Init == l = 1 /\ id = -1 /\ told = [t \in T |-> 0] /\ tried = [t \in T |-> FALSE] /\ total = 0
+Init == l = 1 /\ id = -1 /\ told = [t \in T |-> 0] /\ tried = [t \in T |-> FALSE] /\ total = 0 /\ blocked = [t \in T |-> FALSE]
 Chk(c, code, a, b) == IF c THEN TRUE ELSE PrintT(<<"MISMATCH", l, id, code, a, b>>)
 ChkAll(S, P(_), code) == \A t \in S : Chk(P(t), code, t, told[t])
 Step ==
@@ -18,19 +22,22 @@ Step ==
   /\ l' = l + 1
   /\ LET e == Trace[l] IN
      CASE e.op = "New" ->
-            id' = e.id /\ told' = [t \in T |-> 0] /\ tried' = [t \in T |-> FALSE] /\ total' = 0
+            id' = e.id /\ told' = [t \in T |-> 0] /\ tried' = [t \in T |-> FALSE] /\ total' = 0 /\ blocked' = [t \in T |-> FALSE]
        [] e.op = "Claim" ->
             /\ tried' = IF e.r \in {"won", "lost"} THEN [tried EXCEPT ![e.t] = TRUE] ELSE tried
+            /\ blocked' = IF e.r = "tmoa" THEN [blocked EXCEPT ![e.t] = TRUE] ELSE blocked
+            /\ Chk((e.ack = "won") = (e.r = "won"), "claim-acknowledged-without-win", e.r, e.ack)
+            /\ Chk(e.next # "tell" \/ (e.ack = "won" /\ e.r = "won"), "fires-without-won-claim", e.r, e.ack)
             /\ UNCHANGED <<id, told, total>>
        [] e.op = "Tell" ->
             /\ told' = [told EXCEPT ![e.t] = @ + e.dlv] /\ total' = total + e.dlv
             /\ Chk(told'[e.t] <= 1, "tick-delivered-twice", e.t, told'[e.t])
-            /\ UNCHANGED <<id, tried>>
+            /\ UNCHANGED <<id, tried, blocked>>
        [] e.op = "End" ->
             /\ Chk(e.sink = total /\ e.loose = 0, "delivery-outside-a-tick", e.sink, total)
-            /\ (e.drift # "" \/ ChkAll(T, LAMBDA t : tried[t] => told[t] = 1, "tick-not-delivered"))
+            /\ (e.drift # "" \/ ChkAll(T, LAMBDA t : tried[t] /\ ~blocked[t] => told[t] = 1, "tick-not-delivered"))
             /\ Chk(e.drift # "" \/ e.sink <= MaxTick, "more-deliveries-than-ticks", e.sink, 0)
-            /\ UNCHANGED <<id, told, tried, total>>
-       [] OTHER -> UNCHANGED <<id, told, tried, total>>
+            /\ UNCHANGED <<id, told, tried, total, blocked>>
+       [] OTHER -> UNCHANGED <<id, told, tried, total, blocked>>
 Spec == Init /\ [][Step]_vars
 ====
